@@ -127,8 +127,7 @@ class _TimeStub:
 
 def setup(sym, fail_on):
     keys = ['k1','k2']
-    # the statement excludes a caller nesting get_set on two keys whose hashes collide (the lock table is hash-indexed by design)
-    collide = sym.flag('collide') if not any(op == 'getn' for op,_ in prog) else False
+    collide = sym.flag('collide')
     slot_of = {'k1': 3, 'k2': 3 if collide else 5}
     w = World(sym, keys, slot_of)
     arr = SymArray(w)
